@@ -20,6 +20,133 @@ def hoeff(T, cells, alpha=1e-9):
     return math.sqrt(T * math.log(2 * cells / alpha) / 2)
 
 
+class _TorchTape:
+    """stands in for torch.randint(0, 2, shape): serves the bits of a tape in call order, row-major"""
+    class Exhausted(Exception):
+        pass
+
+    def __init__(self, torch, bits):
+        self.torch, self.bits, self.pos, self.foreign = torch, list(bits), 0, []
+
+    def __call__(self, low, high=None, size=None, **kw):
+        if high is None or size is None or (low, high) != (0, 2):
+            self.foreign.append((low, high, size))
+        shape = tuple(size) if size is not None else ()
+        k = 1
+        for d in shape:
+            k *= int(d)
+        if self.pos + k > len(self.bits):
+            raise _TorchTape.Exhausted()
+        out = self.bits[self.pos:self.pos + k]
+        self.pos += k
+        return self.torch.tensor(out, dtype=self.torch.int64).reshape(shape)
+
+
+def _torch_samplers(ctx, impl, rng):
+    import torch
+    import torchclifford as tc
+    import torchclifford.utils as TU
+    assert tc.__file__.startswith(impl.common.REPO)
+    ival = lambda x: int(round(float(x)))
+    t_rows = lambda m: [O.from_gp([ival(v) for v in g], ival(p)) for g, p in zip(m.gs.tolist(), m.ps.tolist())]
+    # (a) validity on the real RNG path: maps and states of every sampler
+    torch.manual_seed(ctx.seed * 104729 + 7)
+    for _ in range(ctx.budget(120, 1200)):
+        n = rng.choice([1, 2, 3, 4, 5])
+        for name in ('random_clifford_map', 'random_pauli_map'):
+            try:
+                rows = t_rows(getattr(tc, name)(n))
+            except Exception as e:
+                ctx.fail('torch.' + name, 'implementation raised %r' % e, dict(N=n)); continue
+            bad = H.valid_map(rows)
+            ctx.case(('torch-valid', name, n, _), True, sample=dict(op='torch ' + name, N=n))
+            ctx.count('torch-valid:' + name)
+            if bad:
+                ctx.fail('torch.' + name, 'sampled map is not a valid Clifford map: ' + bad, dict(N=n, rows=rows))
+            if name == 'random_pauli_map' and not bad and any(sum(c != 'I' for c in r_[0]) != 1 or r_[0][i // 2] == 'I' for i, r_ in enumerate(rows)):
+                ctx.fail('torch.random_pauli_map', 'not a product of single-qubit Cliffords', dict(N=n, rows=rows))
+        for name in ('random_clifford_state', 'random_pauli_state'):
+            r = rng.randrange(n + 1)
+            try:
+                st = getattr(tc, name)(n, r)
+                rows = t_rows(st)
+            except Exception as e:
+                ctx.fail('torch.' + name, 'implementation raised %r' % e, dict(N=n, r=r)); continue
+            bad = O.tableau_invariant(rows, n, int(st.r))
+            ctx.count('torch-valid:' + name)
+            if bad or int(st.r) != r:
+                ctx.fail('torch.' + name, 'sampled state is not a valid tableau: %s' % bad, dict(N=n, r=r, rows=rows))
+    # (b) the torch random_clifford as a function of the bits it draws: the same function of the tape as the model's randomClifford
+    #     (about which validity, multiplicity and surjectivity are proved), resampling included
+    orig = torch.randint
+    for _ in range(ctx.budget(120, 1200)):
+        n = rng.choice([1, 2, 2, 3, 3, 4])
+        tape = [rng.randrange(2) for _ in range(8 * n * n + 8)]
+        if rng.random() < 0.2:
+            tape[:2 * n] = [0] * (2 * n)          # forces the resampling loop
+        t = _TorchTape(torch, tape)
+        try:
+            torch.randint = t
+            gs = TU.random_clifford(n)
+            got = 'ok %s %d' % (E.estrs([[ival(v) for v in g] for g in gs.tolist()]), len(tape) - t.pos)
+        except _TorchTape.Exhausted:
+            got = 'err tape-underflow'
+        except Exception as e:
+            torch.randint = orig
+            ctx.fail('torch.random_clifford', 'implementation raised %r' % e, dict(N=n, tape=tape)); continue
+        finally:
+            torch.randint = orig
+        ctx.q('torch.random_clifford', 'randclifford %d %s' % (n, E.ebits(tape)), got)
+        ctx.case(('torch-randclifford', n, tuple(tape)), True, sample=dict(op='torch random_clifford', N=n))
+        if t.foreign:
+            ctx.fail('torch.random_clifford', 'draws something other than fair bits: %s' % (t.foreign[:3],), dict(N=n))
+    # (c) exact distribution of the torch random_pauli(2) over all tapes that need no resampling: 36 string tables, each equally often
+    counts = {}
+    for bits in itertools.product((0, 1), repeat=8):
+        t = _TorchTape(torch, list(bits))
+        try:
+            torch.randint = t
+            gs = TU.random_pauli(2)
+        except _TorchTape.Exhausted:
+            continue                                  # this tape needs resampling: not among the accepted ones
+        except Exception as e:
+            torch.randint = orig
+            ctx.fail('torch.random_pauli', 'implementation raised %r' % e, dict(N=2, tape=list(bits))); break
+        finally:
+            torch.randint = orig
+        key = tuple(tuple(ival(v) for v in g) for g in gs.tolist())
+        counts[key] = counts.get(key, 0) + 1
+        rows = [O.from_gp(list(g), 0) for g in key]
+        if H.valid_map(rows):
+            ctx.fail('torch.random_pauli', 'an accepted tape gives an invalid map: ' + H.valid_map(rows), dict(N=2, tape=list(bits), rows=rows)); break
+    ctx.count('torch-exact:random_pauli(2)')
+    ctx.case(('torch-exact-pauli2',), True)
+    if counts and (len(counts) != 36 or len(set(counts.values())) != 1):
+        ctx.fail('torch.random_pauli', 'random_pauli(2) is not uniform over the 36 products of one-qubit string tables as a function of a uniform tape: %d tables, multiplicities %s'
+                 % (len(counts), sorted(set(counts.values()))), dict(N=2))
+    # (d) statistics on the real RNG path: 24 classes at N=1 (signs included), entangling at N=2
+    T = 2400
+    cls = {}
+    for _ in range(T):
+        k = tuple(t_rows(tc.random_clifford_map(1)))
+        cls[k] = cls.get(k, 0) + 1
+    chi = sum((v - T / 24) ** 2 / (T / 24) for v in cls.values()) + (24 - len(cls)) * (T / 24)
+    x = math.log(1e9)
+    ctx.count('torch-stat:N1-classes')
+    if len(cls) != 24 or chi > 23 + 2 * math.sqrt(23 * x) + 2 * x:
+        ctx.fail('torch.random_clifford_map', 'N=1: the 24 one-qubit Clifford maps are not equally likely (%d classes, chi2 %.1f)' % (len(cls), chi), dict(T=T))
+    T2 = 720 * (4 if ctx.tier == 'quick' else 60)
+    cls2 = {}
+    for _ in range(T2):
+        k = tuple(tuple(ival(v) for v in g) for g in TU.random_clifford(2).tolist())
+        cls2[k] = cls2.get(k, 0) + 1
+    chi2 = sum((v - T2 / 720) ** 2 / (T2 / 720) for v in cls2.values()) + (720 - len(cls2)) * (T2 / 720)
+    ctx.count('torch-stat:N2-classes')
+    ctx.notes.append('torch N=2: %d symplectic classes seen in %d draws, chi2 = %.1f' % (len(cls2), T2, chi2))
+    if len(cls2) > 720 or chi2 > 719 + 2 * math.sqrt(719 * x) + 2 * x:
+        ctx.fail('torch.random_clifford', 'N=2: the 720 symplectic classes are not equally likely (%d classes in %d draws, chi2 %.1f)' % (len(cls2), T2, chi2), dict(T=T2))
+
+
 def run(ctx):
     import impl
     U, pc, CI = impl.U, impl.pc, impl.CI
@@ -227,6 +354,8 @@ def run(ctx):
                 ctx.count('corr:rcc-after-compile')
                 if mv3 != (int(st3.r), impl.ops_of(st3)):
                     ctx.mismatch(kind + '_rcc', 'run after compile() with the recorded maps', str(mv3)[:600], str((int(st3.r), impl.ops_of(st3)))[:600], dict(kind=kind, N=n, depth=depth))
+    # ---- the PyTorch port's samplers (the property's anchors include torchclifford/utils.py and stabilizer.py)
+    _torch_samplers(ctx, impl, rng)
     # ---- statistics (support only; exact tail bounds, alpha = 1e-9 per test)
     R.seed_numba(ctx.seed * 7919 + 17)
     T = 4800
